@@ -66,12 +66,12 @@ def gen_specs(rng, solver, df, pen, seed, rep):
     group_solver = solver in ("GroupBCD", "GroupProxNewton")
     for xc in X_CLASSES + (["zero_group@first", "zero_group@middle", "zero_group@last", "single_group"] if group_solver else []):
         k += 1
-        storage = str(rng.choice(["dense", "csc"])) if info["sparse"] else "dense"
+        storage = str(rng.choice(["dense", "csc", "csc_explicit0"])) if info["sparse"] else "dense"
         strategy = str(rng.choice(info["strategies"]))
         if pen == "WeightedL1GroupL2":
             strategy = "fixpoint"
         icpt = bool(rng.integers(0, 2)) and info["intercept"]
-        if not K.compatible(solver, df, pen, storage, icpt, strategy):
+        if not K.compatible(solver, df, pen, "csc" if storage != "dense" else "dense", icpt, strategy):
             storage = "dense"
         shape = str(rng.choice(SHAPES))
         p = 1 if shape == "p=1" else int(rng.integers(3, 14))
